@@ -53,6 +53,11 @@ func GenMultiServiceFile(r *R, idx int, o RuntimeOpts) *ir.Request {
 					&ir.Field{Name: "amount", Number: no + 1, Kind: "int64"},
 					&ir.Field{Name: "labels", Number: no + 2, Kind: "string", Card: "repeated"},
 					&ir.Field{Name: "home", Number: no + 3, Kind: "message", TypeName: P + "Leaf"})
+				if o.FlattenHome && i%2 == 0 {
+					tr := true
+					pfx := "home_"
+					in.Fields[len(in.Fields)-1].Ann = ir.Ann{Flatten: &tr, FlattenPrefix: &pfx}
+				}
 			}
 			f.Messages = append(f.Messages, in)
 			svc.Methods = append(svc.Methods, &ir.Method{Name: fmt.Sprintf("%sDo%d", extra[si].name, i), Input: P + in.Name, Output: P + "Reply",
